@@ -872,6 +872,11 @@ STARTS = [[b, r, m, v, h] for b in (False, True) for (r, m) in ORIENTS for v in 
 
 def t_madctl(rng, seq3_sample=0.02):
     rows = []
+    for v in (0, 1):
+        for h in (0, 1):
+            for ln in range(0, 4):
+                for ops in itertools.product(("fv", "fh"), repeat=ln):
+                    rows.append({"f": "refresh.flip", "in": [v, h, list(ops)]})
     for st in STARTS:
         rows.append({"f": "madctl.new", "in": st})
         rows.append({"f": "madctl.from_options", "in": st})
@@ -906,6 +911,7 @@ def t_orient(rng, maxlen=4, stride=1 << 8):
         rows.append({"f": "rotation.try_from_degree", "in": [90 * rng.randrange(I32MIN // 90 + 1, I32MAX // 90)]})
     for r in range(4):
         rows.append({"f": "rotation.degree", "in": [r]})
+    rows.append({"f": "mock.display", "in": []})
     table = [(a // 90) if a % 90 == 0 else -1 for a in range(360)]
     rows.append({"f": "rotation.all_angles", "in": [table, stride, rng.randrange(stride)]})
     return rows
